@@ -179,6 +179,13 @@ class History:
         present = [x for x in WORDS if x in (d.get("client_text") or "") and x not in self.user_words and x not in self.file_words.get(k, [])]
         if present and self.rng.random() < 0.7:
             w = self.rng.choice(present)
+        # or another capitalisation of a word that dictionary already holds (the document then shows the newer spelling flagged)
+        have = [x for x in (self.user_words if user else self.file_words.get(k, [])) if x.isascii()]
+        if have and self.rng.random() < 0.25:
+            b = self.rng.choice(have)
+            v = b.lower() if b != b.lower() else self.rng.choice([b.capitalize(), b.upper()])
+            if v != b:
+                w = v
         self.trace.append({"op": "HarperAddToUserDict" if user else "HarperAddToFileDict", "doc": k, "word": w})
         n = self.server.n_publishes(d["uri"])
         self.server.command("HarperAddToUserDict" if user else "HarperAddToFileDict", [w, d["uri"]])
@@ -186,14 +193,12 @@ class History:
         # different streams inside the server, so the publish may arrive after the response
         self.wait(lambda: self.server.n_publishes(d["uri"]) > n)
         if user:
-            if w not in self.user_words:
-                self.user_words.append(w)
+            self.user_words[:] = [x for x in self.user_words if x.lower() != w.lower()] + [w]
             for k2, d2 in self.docs.items():
                 if k2 != k and d2["open"] and d2["env"] != self.env_now(k2):
                     d2["flags"].add("not-refreshed")
         elif d["path"]:
-            if w not in self.file_words[k]:
-                self.file_words[k].append(w)
+            self.file_words[k][:] = [x for x in self.file_words[k] if x.lower() != w.lower()] + [w]
         if user or d["path"]:
             self.refresh_from_disk(k)
 
@@ -257,13 +262,12 @@ class History:
             self.trace.append({"op": kind + "(closed document)", "doc": k, "word": w})
             self.server.command(kind, [w, d["uri"]])
             if kind == "HarperAddToUserDict":
-                if w not in self.user_words:
-                    self.user_words.append(w)
+                self.user_words[:] = [x for x in self.user_words if x.lower() != w.lower()] + [w]
                 for k2, d2 in self.docs.items():
                     if d2["open"] and d2["env"] != self.env_now(k2):
                         d2["flags"].add("not-refreshed")
-            elif d["path"] and w not in self.file_words[k]:
-                self.file_words[k].append(w)
+            elif d["path"]:
+                self.file_words[k][:] = [x for x in self.file_words[k] if x.lower() != w.lower()] + [w]
         self.wait(lambda: self.server.n_publishes(d["uri"]) > n, timeout=3.0)
 
     def op_delete(self, k):
